@@ -56,7 +56,7 @@ func c07Delete(c *Ctx, m *Module) {
 		// (2) os.Stat(report name) err == nil
 		for _, st := range callsIn(fn, "os.Stat") {
 			if hasFact(facts, errNilOf(st.(*ssa.Call))) {
-				nm := describe(st.Common().Args[0])
+				nm := describe(argsOf(st)[0])
 				if strings.Contains(nm, `".json"`) && strings.Contains(nm, "LocalDir(") {
 					evidence = "os.Stat(" + nm + ") succeeded: a report file for the week exists"
 				}
@@ -66,7 +66,7 @@ func c07Delete(c *Ctx, m *Module) {
 		if evidence == "" && fn == cr {
 			var localW, uploadW *ssa.Call
 			for _, w := range callsIn(fn, "internal/upload.exclusiveWrite") {
-				if strings.Contains(describe(w.Common().Args[0]), `"local."`) {
+				if strings.Contains(describe(argsOf(w)[0]), `"local."`) {
 					localW = w.(*ssa.Call)
 				} else {
 					uploadW = w.(*ssa.Call)
@@ -119,15 +119,15 @@ func c07Delete(c *Ctx, m *Module) {
 			"counter files may be deleted only once a report for their week exists; evidence on this path: "+evidence)
 		// the slice deleted is the one folded
 		if fn == cr {
-			r.Check("C07.delete-after-report", site+"/deletes the folded files", m.Pos(cs.Pos()), cs.Common().Args[1] == ssa.Value(cr.Params[3]),
-				"createReport may delete only the files it was given; got "+describe(cs.Common().Args[1]))
+			r.Check("C07.delete-after-report", site+"/deletes the folded files", m.Pos(cs.Pos()), argsOf(cs)[1] == ssa.Value(cr.Params[3]),
+				"createReport may delete only the files it was given; got "+describe(argsOf(cs)[1]))
 		}
 	}
 	r.Check("C07.delete-after-report", "deleteFiles call sites enumerated", m.Pos(del.Pos()), n >= 2, fmt.Sprintf("%d call sites", n))
 	// os.Remove in deleteFiles only of its parameter's elements; no other remover of .count paths
 	for _, fn := range m.PkgFuncs("internal/upload") {
 		for _, cs := range callsIn(fn, "os.Remove", "os.RemoveAll") {
-			nm := describe(cs.Common().Args[0])
+			nm := describe(argsOf(cs)[0])
 			switch fname(fn) {
 			case "(*internal/upload.uploader).deleteFiles":
 				r.Check("C07.delete-after-report", "deleteFiles/removes its argument's elements", m.Pos(cs.Pos()), strings.HasPrefix(nm, "param:files["), "got "+nm)
@@ -176,7 +176,7 @@ func c07OnlyExpiredAs(c *Ctx, m *Module, ruleExp, ruleKey string) {
 		var span *ssa.Call
 		fb.namer = func(v ssa.Value) (string, bool) {
 			if e, ok := v.(*ssa.Extract); ok {
-				if cl, ok := e.Tuple.(*ssa.Call); ok && calleeName(&cl.Call) == "(*internal/upload.uploader).counterDateSpan" && strip(cl.Call.Args[1]) == f {
+				if cl, ok := e.Tuple.(*ssa.Call); ok && calleeName(&cl.Call) == "(*internal/upload.uploader).counterDateSpan" && strip(argsOf(cl)[1]) == f {
 					span = cl
 					return []string{"begin", "end", "spanErr"}[e.Index], true
 				}
@@ -201,11 +201,11 @@ func c07OnlyExpiredAs(c *Ctx, m *Module, ruleExp, ruleKey string) {
 	r.Check(ruleExp, "reports/has the per-week append", m.Pos(rep.Pos()), n == 1, fmt.Sprintf("%d append sites", n))
 	// createReport and deleteFiles receive exactly those lists
 	for _, cs := range callsIn(rep, "(*internal/upload.uploader).createReport") {
-		d := describe(cs.Common().Args[3])
+		d := describe(argsOf(cs)[3])
 		r.Check(ruleExp, "reports/createReport gets the week's list", m.Pos(cs.Pos()), strings.HasPrefix(d, "rangeval(makemap:"), "got "+d)
 	}
 	for _, cs := range callsIn(rep, "(*internal/upload.uploader).deleteFiles") {
-		d := describe(cs.Common().Args[1])
+		d := describe(argsOf(cs)[1])
 		r.Check(ruleExp, "reports/deleteFiles gets the week's list", m.Pos(cs.Pos()), strings.HasPrefix(d, "rangeval(makemap:"), "got "+d)
 	}
 	// findWork: countfiles append under ¬err ∧ ¬expiry.After(startTime)
@@ -239,7 +239,7 @@ func c07OnlyExpiredAs(c *Ctx, m *Module, ruleExp, ruleKey string) {
 		ok2, why := projectedEquivalent(got, want, func(v string) bool { return strings.Contains(v, "end") || strings.Contains(v, "spanErr") })
 		r.Check(ruleExp, "findWork/count file collected iff readable and not still active", m.Pos(st.Pos()), ok2,
 			"a count file is collected iff its span is readable ∧ ¬(end > startTime): "+why)
-		okName := len(elems) == 1 && strings.Contains(describe(elems[0]), "LocalDir(")
+		okName := len(elems) == 1 && strings.Contains(describe(refine(elems[0], factsAt(st))), "LocalDir(")
 		r.Check(ruleExp, "findWork/collected name is the listed file", m.Pos(st.Pos()), okName && hasFact(factsAt(st), callResultIs("strings.HasSuffix", true, func(a []ssa.Value, _ *ssa.Call) bool {
 			k, ok := constOf(a[1])
 			return ok && k == "."+m.ConstVal("internal/counter", "FileVersion")+".count"
@@ -259,7 +259,7 @@ func c07Writers(c *Ctx, m *Module) {
 			case "os.Remove", "os.RemoveAll", "os.MkdirAll", "(*os.File).Write":
 				continue
 			}
-			nm := describe(e.Call.Common().Args[0])
+			nm := describe(argsOf(e.Call)[0])
 			if fname(fn) == "internal/upload.exclusiveWrite" {
 				continue
 			}
@@ -347,7 +347,7 @@ func c07AccumulateAs(c *Ctx, m *Module, rule string) {
 					rg := nx.Iter.(*ssa.Range)
 					cb, cf, okc := fieldLoad(rg.X)
 					fp := strip(base).(*ssa.Call)
-					mb, mf, okm := fieldLoad(fp.Call.Args[0])
+					mb, mf, okm := fieldLoad(argsOf(fp)[0])
 					r.Check(rule, "createReport/"+fld+" folded from the same parsed file as the identity", m.Pos(mu.Pos()),
 						okc && okm && cf == "Count" && mf == "Meta" && strip(cb) == strip(mb) && strings.HasPrefix(describe(cb), "(*internal/upload.uploader).parseCountFile("),
 						"counts and identity metadata must come from one parse result")
@@ -389,7 +389,7 @@ func c07AccumulateAs(c *Ctx, m *Module, rule string) {
 	}
 	// every file of the list is parsed: the loop ranges over the countFiles parameter
 	for _, cs := range callsIn(cr, "(*internal/upload.uploader).parseCountFile") {
-		d := describe(cs.Common().Args[1])
+		d := describe(argsOf(cs)[1])
 		r.Check(rule, "createReport/parses each given file", m.Pos(cs.Pos()), strings.HasPrefix(d, "param:countFiles["), "got "+d)
 	}
 }
@@ -417,12 +417,12 @@ func c07WeekKey(c *Ctx, m *Module) {
 	}
 	r.Check("C07.week-key", "createReport/report.Week is the week key", m.Pos(cr.Pos()), found, "the local report's Week must be the expiryDate parameter")
 	for _, cs := range callsIn(cr, "internal/upload.exclusiveWrite") {
-		d := describe(cs.Common().Args[0])
+		d := describe(argsOf(cs)[0])
 		r.Check("C07.week-key", "createReport/file name carries the week key", m.Pos(cs.Pos()), strings.Contains(d, "param:expiryDate") && strings.Contains(d, `".json"`) && strings.Contains(d, "LocalDir("), "got "+d)
 	}
 	rep := m.Func("internal/upload", "uploader.reports")
 	for _, cs := range callsIn(rep, "(*internal/upload.uploader).createReport") {
-		a := cs.Common().Args
+		a := argsOf(cs)
 		r.Check("C07.week-key", "reports/createReport(week key, that week's files)", m.Pos(cs.Pos()),
 			strings.HasPrefix(describe(a[2]), "rangekey(") && strings.HasPrefix(describe(a[3]), "rangeval(") && describe(a[2])[9:] == describe(a[3])[9:], "key and list must come from the same map entry")
 	}
